@@ -261,7 +261,8 @@ def run_scenario(world, requests, env0):
             for v in vs:
                 p = e.findProduct(name, v, flavor=flavor_of(world, name))
                 tbl = p.getTable()
-                acts = tbl.actions(FLAVOR, setupType=e.setupType) if tbl else []
+                # for the flavor the product is declared under: the one Eups.setup reads the table for (setupFlavor)
+                acts = tbl.actions(p.flavor or FLAVOR, setupType=e.setupType) if tbl else []
                 parsed["%s %s" % (name, v)] = {"dir": p.dir, "flavor": p.flavor, "actions": model_actions(acts),
                                                "lines": line_infos(acts, e), "tags": [str(t) for t in p.tags]}
         log, names = [], []
@@ -580,6 +581,9 @@ def run_scenarios(ctx, scenarios, oracle, nproc=14):
         ctx.bump("composed-model-comparisons")
         if len(rec["decisions"]) > 1:
             ctx.bump("composed-model-comparisons-with-dependencies")
+    # the text-fed model (C11's parser + expandEupsVariables + command kinds + setup, coq/Model/SetupText.v): same
+    # requests and decisions, the world given by the table texts the generator wrote
+    text_pass(ctx, meta)
     for s, r in zip(scenarios, results):
         if any(" -f generic " in v for rec in r[1]["records"] for k, v in rec["after"].items() if k.startswith("SETUP_")):
             ctx.bump("scenario-sets-up-a-fallback-flavor-product")
@@ -601,3 +605,266 @@ def corpus(pid):
 
 def strip_stack(res, text):
     return text.replace(res["stack"], "@STACK@") if isinstance(text, str) else text
+
+
+# ------------------------------------------------------------------ the text-fed model (coq/Model/SetupText.v)
+
+SETUP_TYPES = ["exact"]                 # Eups.setupType after selectVRO with the shipped VRO (it starts with type:exact)
+IMPLICIT_WORDS = ["implicitProducts"]   # hooks.config.Eups.defaultProduct: name, no version, no tag
+
+
+def table_text(world, name, version):
+    """the text of the table file as materialise() wrote it"""
+    return "\n".join(world["products"][name][version]) + "\n"
+
+
+def tworld_field(world, res):
+    """the world as TEXTS: name:version:dir:flavor:table text; directory and flavor as declared (read back through the
+    real findProduct), the text is the generator's - the real parser is not consulted"""
+    prods = []
+    for key, info in sorted(res["parsed"].items()):
+        name, v = key.split(" ")
+        prods.append("%s:%s:%s:%s:%s" % (enc(name), enc(v), enc(info["dir"]), enc(info.get("flavor", FLAVOR)),
+                                         enc(table_text(world, name, v))))
+    return "|".join(prods)
+
+
+def model_line_text(world, res, rec, fuel=60):
+    """the request of model_line for the model that starts from the table texts (op text of build/c01/run):
+    table_actions of C11, Table.expandEupsVariables, the command kinds and processArgs are all on the model side"""
+    rq = rec["request"]
+    md = rq.get("max_depth")
+    cfg = "%s,%s,%s,%s," % (enc(FLAVOR), enc(res["stack"]), "-" if md is None or md < 0 else str(md),
+                            "1" if rq.get("keep") else "0")
+    ds = ",".join("!" if d is None else enc(d) for d in rec["decisions"])
+    return "\t".join(["text", tworld_field(world, res), cfg, common.enc_env(rec["before"]), "", ds, enc(rq["name"]),
+                      "1" if rq.get("fwd", True) else "0", "1" if rq.get("just") else "0", str(fuel),
+                      ",".join(enc(t) for t in SETUP_TYPES), ",".join(enc(w) for w in IMPLICIT_WORDS)])
+
+
+def compare_text(ctx, world, res, rec, mres):
+    """text-fed model vs implementation for one request: success, environment, aliases (as compare)"""
+    case = {"world": world, "request": rec["request"], "before": rec["before"], "decisions": rec["decisions"],
+            "text_model": True}
+    if mres.get("kind", "").startswith("err"):
+        ctx.disagree(case, mres, {"ok": rec["ok"], "outcome": rec["outcome"]}, where="text-model-error")
+        return
+    if rec["ok"] != mres["ok"]:
+        ctx.disagree(case, mres, {"ok": rec["ok"], "outcome": rec["outcome"]}, where="text-success")
+        return
+    if rec["ok"]:
+        if mres["env"] != rec["after"] or mres["aliases"] != rec["aliases"] or mres.get("left"):
+            diff = {k: (mres["env"].get(k), rec["after"].get(k)) for k in set(mres["env"]) | set(rec["after"])
+                    if mres["env"].get(k) != rec["after"].get(k)}
+            ctx.disagree(case, {"env_diff(model,impl)": diff, "aliases": mres["aliases"], "left": mres.get("left")},
+                         {"aliases": rec["aliases"]}, where="text-environment")
+
+
+def table_pass(ctx, pairs):
+    """every table of every world: the actions the model derives from the TEXT (C11's parser, the implicit product
+    line, expandEupsVariables, command kinds, processArgs) against the actions the real parser and the real
+    expandEupsVariables gave (res["parsed"], in the same encoding)"""
+    lines, keys = [], []
+    for world, res in pairs:
+        cfg = "%s,%s,-,0," % (enc(FLAVOR), enc(res["stack"]))
+        for key, info in sorted(res["parsed"].items()):
+            name, v = key.split(" ")
+            tp = "%s:%s:%s:%s:%s" % (enc(name), enc(v), enc(info["dir"]), enc(info.get("flavor", FLAVOR)),
+                                     enc(table_text(world, name, v)))
+            lines.append("\t".join(["ttable", tp, cfg, ",".join(enc(t) for t in SETUP_TYPES),
+                                    ",".join(enc(w) for w in IMPLICIT_WORDS)]))
+            keys.append((world, res, key))
+    for out, (world, res, key) in zip(ctx.model(lines, pid="C01"), keys):
+        f = out.split("\t")
+        if f[0] == "outside":
+            ctx.bump("text-table-outside")
+            ctx.bump("text-table-outside:" + (f[1] if len(f) > 1 else "?"))
+            continue
+        macts = f[1].split("+") if len(f) > 1 and f[1] else []
+        ctx.bump("text-table-comparisons")
+        if macts != res["parsed"][key]["actions"]:
+            name, v = key.split(" ")
+            ctx.disagree({"product": key, "table": world["products"][name][v], "dir": strip_stack(res, res["parsed"][key]["dir"]),
+                          "text_model": True},
+                         [strip_stack(res, common.dec(a)) for a in macts],
+                         [strip_stack(res, common.dec(a)) for a in res["parsed"][key]["actions"]], where="text-table-actions")
+
+
+def text_pass(ctx, meta):
+    """every request once more through the model, this time from the table texts; a world with a construct outside
+    coq/Model/SetupText.v (answer outside) is counted, not compared"""
+    seen, pairs = set(), []
+    for (s, r, rec) in meta:
+        if id(r) not in seen:
+            seen.add(id(r))
+            pairs.append((s["world"], r))
+    table_pass(ctx, pairs)
+    outs = ctx.model([model_line_text(s["world"], r, rec) for (s, r, rec) in meta], pid="C01")
+    for out, (s, r, rec) in zip(outs, meta):
+        f = out.split("\t")
+        if f[0] == "outside":
+            ctx.bump("text-model-outside")
+            ctx.bump("text-model-outside:" + (f[1] if len(f) > 1 else "?"))
+            continue
+        compare_text(ctx, s["world"], r, rec, model_result(out))
+        ctx.bump("text-model-comparisons")
+        if len(rec["decisions"]) > 1:
+            ctx.bump("text-model-comparisons-with-dependencies")
+
+
+# ------------------------------------------------------------------ worlds whose TABLE TEXTS vary (for the text-fed model)
+
+SPELLINGS = {
+    "envPrepend": ["envPrepend", "pathPrepend", "ENVPREPEND", "PathPrepend"],
+    "envAppend": ["envAppend", "pathAppend", "EnvAppend", "PATHAPPEND"],
+    "envSet": ["envSet", "setenv", "pathSet", "SETENV"],
+    "setupRequired": ["setupRequired", "SetupRequired", "SETUPREQUIRED"],
+    "setupOptional": ["setupOptional", "setupoptional", "SetupOptional"],
+    "addAlias": ["addAlias", "ADDALIAS", "addalias"],
+}
+
+
+def respell_line(rng, line):
+    """the same command in another of the spellings the table grammar allows: synonym and letter case of the command
+    name, indentation, blanks before the parenthesis, trailing semicolon and comment, the whole argument string of a
+    dependency line in quotes, -j before the product name, the older synonyms of ${PRODUCT_DIR}"""
+    import re
+    m = re.match(r"(\w+)\((.*)\)$", line)
+    if not m:
+        return line
+    cmd, args = m.group(1), m.group(2)
+    if cmd in ("setupRequired", "setupOptional"):
+        r = rng.random()
+        if args.endswith(" -j") and r < 0.5:
+            args = "-j " + args[:-3]
+        if rng.random() < 0.3:
+            args = '"%s"' % args
+    elif rng.random() < 0.25:
+        args = args.replace("${PRODUCT_DIR}", rng.choice(["${PROD_DIR}", "${UPS_PROD_DIR}"]))
+    return "%s%s%s(%s)%s%s" % (rng.choice(["", "", "  ", "\t", "    "]), rng.choice(SPELLINGS.get(cmd, [cmd])),
+                               rng.choice(["", "", " "]), args, rng.choice(["", "", ";", " ;"]),
+                               rng.choice(["", "", "", "   # a comment"]))
+
+
+def textual_lines(rng, name, lines):
+    """respelled lines, a few commands that use the other variables Table.expandEupsVariables replaces, and if / else
+    if / else blocks around runs of lines (conditions on the setup type and on the flavor) that leave the selected
+    commands the same for the flavors Linux64 and generic - except the last form, which tells the two apart"""
+    up = name.upper()
+    out = [respell_line(rng, l) for l in lines]
+    extra = []
+    if rng.random() < 0.4:
+        extra.append('envSet(%s_INFO, "${PRODUCT_NAME} ${PRODUCT_VERSION} ${PRODUCT_FLAVOR}")' % up)
+    if rng.random() < 0.3:
+        extra.append("envSet(%s_UPS, %s)" % (up, rng.choice(["${UPS_DIR}", "${UPS_UPS_DIR}/x"])))
+    if rng.random() < 0.3:
+        extra.append("setenv(%s_DB, %s/ups_db/${PRODUCT_VERSION})" % (up, rng.choice(["${PRODUCTS}", "${UPS_DB}"])))
+    if rng.random() < 0.1:
+        extra.append("envAppend(%s_XTRA, ${PRODUCT_DIR_EXTRA}/x)" % up)
+    if rng.random() < 0.1:
+        extra.append(rng.choice(["prodDir()", "setupEnv()"]))
+    for l in extra:
+        out.insert(rng.randrange(len(out) + 1), l)
+    junk = lambda: "envSet(%s_JUNK, never%d)" % (up, rng.randrange(100))
+    for _ in range(rng.choice([0, 1, 1, 2])):
+        i = rng.randrange(len(out) + 1)
+        j = rng.randrange(i, min(len(out), i + 3) + 1)
+        body = out[i:j]
+        depth = 0                       # blocks do not nest in the table grammar
+        for l in out[:i]:
+            t = l.lstrip()
+            if t.startswith("if"):
+                depth = 1
+            elif t.startswith("}") and "else" not in t.lower():
+                depth = 0
+        if depth or any(l.lstrip().startswith(("if", "}")) for l in body):
+            continue
+        form = rng.randrange(7)
+        if form == 0:
+            blk = ["if (type == exact) {"] + body + ["}"]
+        elif form == 1:
+            blk = ["if (TYPE != exact) {", junk(), "} else {"] + body + ["}   # back"]
+        elif form == 2:
+            blk = ["if (flavor == Linux64 || flavor == generic) {"] + body + ["}"]
+        elif form == 3:
+            blk = ["if (flavor == DarwinX86) {", junk(), "} else if (FLAVOR == Linux64 || FLAVOR == generic) {"] + body + \
+                  ["} else {", junk(), "}"]
+        elif form == 4:
+            blk = ["if ((flavor != Linux64 && flavor != generic) || type != exact) {", junk(), "} else {"] + body + ["}"]
+        elif form == 5:
+            # a branch without any command (the selected one when body is empty)
+            blk = ["if (type == exact) {"] + body + ["} else {", junk(), "}"]
+        else:
+            # tells Linux64 and generic apart: a product declared under generic is read with flavor generic
+            blk = ["if (flavor == Linux64) {"] + body + ["} else {"] + \
+                  [l.replace("/bin)", "/gbin)").replace("/home)", "/ghome)") for l in body] + ["}"]
+        out[i:j] = blk
+    return out
+
+
+def gen_world_text(rng):
+    w = gen_world(rng)
+    for name, vs in w["products"].items():
+        for v in list(vs):
+            vs[v] = textual_lines(rng, name, vs[v])
+    return w
+
+
+def gen_scenario_text(rng, inverse=False):
+    """scenarios aimed at the text-fed model: worlds of gen_world whose table texts were varied by textual_lines;
+    inverse: setup X then unsetup X (the shape C02 evaluates); otherwise some setups, possibly an unsetup among them,
+    and a final setup"""
+    w = gen_world_text(rng)
+    env0 = {"PATH": "/usr/bin:/bin"}
+    if rng.random() < 0.3:
+        env0["XLIST"] = "/pre/x;/pre/y"
+    if inverse:
+        first = gen_request(rng, w, allow_fail=0.05)
+        return {"world": w, "requests": [first, {"name": first["name"], "fwd": False}], "env0": env0}
+    reqs = []
+    for _ in range(rng.choice([1, 2, 3])):
+        rq = gen_request(rng, w, allow_fail=0.0)
+        reqs.append(rq)
+        if rng.random() < 0.3:
+            reqs.append({"name": rq["name"], "fwd": False})
+    return {"world": w, "requests": reqs + [gen_request(rng, w, allow_fail=0.05)], "env0": env0}
+
+
+def directed_text_scenarios():
+    """tables with the constructs the random families leave out, declared next to a plain product; every table is
+    compared action by action (table_pass), the executable ones are also set up and unset up:
+    odd 1.0  the spellings of PRODUCT_DIR: only the FIRST spelling re.search meets is replaced (all its occurrences),
+             the others stay, so the line raises when executed (the request fails); PRODUCT_DIR_EXTRA
+    odd 2.0  PRODUCT_NAME / VERSION / FLAVOR, the spelled-out ODD_DIR, UPS_DIR, PRODUCTS in one quoted value; a
+             replacement inside the FIRST argument (the variable name, the alias name)
+    odd 3.0  option words of a dependency line: -j before the name, -T with its value between name and version, -t and
+             -k behind the name, the whole argument string quoted
+    second scenario: a dependency line with -r (a directory), which the setup model does not have: the world is
+    counted as outside the text-fed model"""
+    plain = ["envPrepend(PATH, ${PRODUCT_DIR}/bin)"]
+    odd = {"1.0": ["envSet(ODD_X, ${PRODUCT_DIR_EXTRA}/y:${PRODUCT_DIR}/z)",
+                   "envPrepend(ODD_MIX, $?{PRODUCT_DIR}/a:${PRODUCT_DIR}/b)",
+                   "envPrepend(ODD_MIX2, ${PRODUCT_DIR}/a:$?{PRODUCT_DIR}/b:${PRODUCT_DIR}/c)"],
+           "2.0": ['envSet(ODD_N, "${PRODUCT_NAME}-${PRODUCT_VERSION} ${PRODUCT_FLAVOR}, ${ODD_DIR} ${UPS_DIR} ${PRODUCTS} ${UPS_DB}")',
+                   "envSet(${PRODUCT_NAME}_VAR, x)", "addAlias(odd_${PRODUCT_VERSION}, echo ${PRODUCT_DIR} ${UPS_PROD_VERSION})",
+                   "pathAppend(ODD_PATH, ${PROD_DIR}/lib)"],
+           "3.0": ["setupRequired(-j p0)", "setupOptional(p0 -T build 1.0)", "SetupRequired(p0 -t current -k)",
+                   'setupRequired("p0 1.0")', "envPrepend(PATH, ${PRODUCT_DIR}/bin);"]}
+    w1 = {"root": "stack", "products": {"p0": {"1.0": list(plain)}, "odd": odd}, "current": {"p0": "1.0"}, "generic": []}
+    s1 = {"world": w1, "env0": {"PATH": "/usr/bin:/bin"},
+          "requests": [{"name": "odd", "version": "1.0", "fwd": True}, {"name": "odd", "version": "2.0", "fwd": True},
+                       {"name": "odd", "fwd": False}, {"name": "odd", "version": "3.0", "fwd": True},
+                       {"name": "p0", "fwd": True}]}
+    w2 = {"root": "stack", "products": {"p0": {"1.0": list(plain)},
+                                        "loc": {"1.0": ["setupOptional(-r ${PRODUCT_DIR}/sub p0)"]}},
+          "current": {"p0": "1.0"}, "generic": []}
+    s2 = {"world": w2, "env0": {"PATH": "/usr/bin:/bin"}, "requests": [{"name": "p0", "fwd": True}]}
+    # the same odd tables for a product declared under the fall-back flavor
+    import copy
+    w3 = copy.deepcopy(w1)
+    w3["generic"] = ["odd"]
+    w3["products"]["odd"]["2.0"].append("if (flavor == generic) {")
+    w3["products"]["odd"]["2.0"].append("   envPrepend(ODD_PATH, ${PRODUCT_DIR}/glib)")
+    w3["products"]["odd"]["2.0"].append("}")
+    s3 = {"world": w3, "env0": dict(s1["env0"]), "requests": copy.deepcopy(s1["requests"])}
+    return [s1, s2, s3]
